@@ -8,7 +8,6 @@ definitions in `ZepidVerif.Gen.Calc`.
 -/
 import ZepidVerif.Model.Core
 import ZepidVerif.Gen.Calc
-import ZepidVerif.Gen.Frechet
 namespace ZV.Measures
 
 /-- one row of the user's frame: exposure level, outcome, person-time; `none` = NaN -/
@@ -84,15 +83,6 @@ def fitRates (cf : F → F → F → F → Except Err (Results F)) (rows : List 
   | .ok lv =>
     mapLevels (fun i => cf ((cntED rows i true : Nat) : F) ((cntED rows ref true : Nat) : F)
       (personTime rows i) (personTime rows ref)) lv
-
-/-- Fréchet (no-assumption) bounds reported by RiskDifference.fit for level `i` -/
-def frechet (rows : List (MRow F)) (i : Nat) : F × F :=
-  let a := ((cntED rows i true : Nat) : F)
-  let b := ((cntED rows i false : Nat) : F)
-  let n := (((complete rows).length : Nat) : F)
-  let yo := (((rows.filter fun r => r.e.isSome && r.e != some i && r.d == some true).length : Nat) : F)
-  let ri := a / (a + b)
-  (Gen.fr_lower ri a b yo n, Gen.fr_upper ri a b yo n)
 
 end
 end ZV.Measures
